@@ -796,7 +796,7 @@ func (s FactSet) holdsSyntactic(t *Term, val bool) bool {
 }
 
 // propLeaves collects the propositional leaves of a boolean term (normalised, polarity-free).
-func propLeaves(t *Term, into map[string]bool) {
+func propLeaves(t *Term, into map[string]*Term) {
 	for t.Op == "!" && len(t.A) == 1 {
 		t = t.A[0]
 	}
@@ -813,7 +813,18 @@ func propLeaves(t *Term, into map[string]bool) {
 			return
 		}
 	}
-	into[nf.T.String()] = true
+	k := nf.T.String()
+	if old, ok := into[k]; ok && old != nil && termHasObj(old) && !termHasObj(nf.T) {
+		return
+	}
+	into[k] = nf.T
+}
+
+func termHasObj(t *Term) bool {
+	if t.Op == "==" && len(t.A) == 2 {
+		return t.A[1].Obj != nil
+	}
+	return t.Obj != nil
 }
 
 // propEval evaluates a boolean term under an assignment of its leaves.
@@ -852,7 +863,7 @@ func propEval(t *Term, asg map[string]bool) bool {
 
 // entails: every assignment of the leaves that satisfies the facts sharing a leaf with t gives t the value val.
 func (s FactSet) entails(t *Term, val bool) bool {
-	leaves := map[string]bool{}
+	leaves := map[string]*Term{}
 	propLeaves(t, leaves)
 	if len(leaves) == 0 {
 		return false
@@ -866,12 +877,20 @@ func (s FactSet) entails(t *Term, val bool) bool {
 				continue
 			}
 			f := s[k]
-			fl := map[string]bool{}
+			fl := map[string]*Term{}
 			propLeaves(f.T, fl)
 			share := false
-			for l := range fl {
-				if leaves[l] {
+			for l, lt := range fl {
+				if leaves[l] != nil {
 					share = true
+				}
+				// another value of a subject already compared with a constant (the enumeration axioms connect them)
+				if lt.Op == "==" && len(lt.A) == 2 && isConstTerm(lt.A[1]) {
+					for _, ot := range leaves {
+						if ot.Op == "==" && len(ot.A) == 2 && isConstTerm(ot.A[1]) && ot.A[0].Eq(lt.A[0]) {
+							share = true
+						}
+					}
 				}
 			}
 			if !share {
@@ -879,8 +898,10 @@ func (s FactSet) entails(t *Term, val bool) bool {
 			}
 			used[k] = true
 			rel = append(rel, f)
-			for l := range fl {
-				leaves[l] = true
+			for l, lt := range fl {
+				if old := leaves[l]; old == nil || !termHasObj(old) {
+					leaves[l] = lt
+				}
 			}
 		}
 	}
@@ -892,14 +913,69 @@ func (s FactSet) entails(t *Term, val bool) bool {
 		names = append(names, l)
 	}
 	sort.Strings(names)
+	// domain axioms: x == c and x == d exclude each other for distinct constants; when every constant of
+	// a declared enumeration occurs, one of them holds
+	type eqGroup struct {
+		leaves []string
+		consts []*Term
+	}
+	groups := map[string]*eqGroup{}
+	for _, n := range names {
+		lt := leaves[n]
+		if lt.Op == "==" && len(lt.A) == 2 && isConstTerm(lt.A[1]) {
+			k := lt.A[0].String()
+			if groups[k] == nil {
+				groups[k] = &eqGroup{}
+			}
+			groups[k].leaves = append(groups[k].leaves, n)
+			groups[k].consts = append(groups[k].consts, lt.A[1])
+		}
+	}
+	domainOK := func(asg map[string]bool) bool {
+		for _, g := range groups {
+			nTrue := 0
+			for i, l := range g.leaves {
+				if !asg[l] {
+					continue
+				}
+				nTrue++
+				for j := 0; j < i; j++ {
+					if asg[g.leaves[j]] {
+						if eq, ok := constEq(g.consts[i], g.consts[j]); ok && !eq {
+							return false
+						}
+					}
+				}
+			}
+			if nTrue == 0 && len(g.consts) > 0 {
+				if n := enumSize(g.consts[0]); n > 0 && n == len(g.consts) {
+					distinct := true
+					for i := range g.consts {
+						for j := 0; j < i; j++ {
+							if eq, ok := constEq(g.consts[i], g.consts[j]); !ok || eq {
+								distinct = false
+							}
+						}
+					}
+					if distinct {
+						return false
+					}
+				}
+			}
+		}
+		return true
+	}
 	asg := map[string]bool{}
 	sat := false
 	for m := 0; m < 1<<uint(len(names)); m++ {
 		for i, n := range names {
 			asg[n] = m&(1<<uint(i)) != 0
 		}
-		ok := true
+		ok := domainOK(asg)
 		for _, f := range rel {
+			if !ok {
+				break
+			}
 			if propEval(f.T, asg) == f.Neg {
 				ok = false
 				break
